@@ -198,12 +198,12 @@ theorem safe_decBody (c : CodecCfg) (hc : ManGood c) (d : Bytes) (hsmall : 8 * d
     exact Safe.mono (Safe.ifMore (Safe.bind U fun _ => Safe.bind U fun _ => Safe.bind U fun _ =>
       Safe.bind C fun _ => Safe.bind O fun _ => Safe.pure (k := 0) _) (Safe.pure _)) (by omega)
   · unfold decRaft
-    exact Safe.mono (Safe.ifWithin (Safe.bind U fun _ => Safe.bind U fun _ => Safe.bind U fun _ =>
+    exact Safe.mono (Safe.ifPayload c (Safe.bind U fun _ => Safe.bind U fun _ => Safe.bind U fun _ =>
       Safe.bind U fun _ => Safe.bind U fun _ => Safe.bind U fun _ => Safe.bind U fun _ => Safe.bind U fun _ =>
       Safe.bind C fun _ => Safe.bind OU fun _ => Safe.bind OU fun _ => Safe.bind OU fun _ =>
       Safe.bind OU fun _ => Safe.pure (k := 0) _) (Safe.pure _)) (by omega)
   · unfold decRegion decRegionRest
-    exact Safe.mono (Safe.ifWithin (Safe.bind U fun _ => Safe.bind C fun _ => Safe.bind O fun _ =>
+    exact Safe.mono (Safe.ifPayload c (Safe.bind U fun _ => Safe.bind C fun _ => Safe.bind O fun _ =>
       Safe.ite (Safe.pure _) (Safe.bind BC fun _ => Safe.bind BC fun _ => Safe.bind U fun _ =>
         Safe.bind U fun _ => Safe.bind C fun _ => Safe.bind O fun _ =>
         Safe.bind (Safe.ifMore U (Safe.pure _)) fun count =>
